@@ -187,7 +187,7 @@ func RunFifo(e *Env) {
 	R.Rule = "seeded random client programs of 20-200 operations over all 21 puppet methods (send-waiting and not, per-node functions skipping random subsets, quorum thresholds below n), issued by one goroutine or a baton-passing chain of 2-4; " +
 		"servers with gated (holding), slow and early-releasing handlers (Release at once, then run on for up to 0.3 ms; the generated code releases again on return) so that requests pile up; send buffers {0,1,4,64}; n in 1..7; PCT delays at the hook points on half of the programs; a minority of programs cancel contexts; " +
 		"oracle over server entry logs: per (server, connection) issue sequence numbers strictly increase in handler-entry order, no (server, call) twice, and without cancellation exactly one connection per server and every targeted (call, server) present; " +
-		"plus configurations created from address lists naming each server under two or three spellings of its address: no handler twice, issue order; distinct = program shape hash; non-trivial = >= 2 servers or >= 2 goroutines"
+		"plus configurations created from address lists naming each server under two or three spellings of its address: no handler twice, issue order; configurations that go on being used after others were derived from them (Except, WithoutNodes, And); distinct = program shape hash; non-trivial = >= 2 servers or >= 2 goroutines"
 	R.Assume("handler entry is recorded under the server's log mutex before the handler releases the connection, so log order = start order per connection")
 	rng := e.Rand(3)
 	nprog := e.Pick(400, 25000)
@@ -232,7 +232,76 @@ func RunFifo(e *Env) {
 			continue
 		}
 		runFifoAliased(e, rep)
+		runFifoDerived(e, rep)
 	}
+}
+
+// runFifoDerived: other configurations are derived from a configuration (Except, WithoutNodes, And, WithNewNodes) and the
+// original goes on being used: every one of its servers still starts the handler of every call exactly once, in issue order.
+func runFifoDerived(e *Env, rep int) {
+	R := e.R
+	n := 3 + rep%3
+	cl, err := h.NewCluster(h.Options{N: n, Block: true, DialTimeout: 2 * time.Second})
+	if err != nil {
+		R.Inconc("cluster: " + err.Error())
+		return
+	}
+	defer cl.Close()
+	sub, err := cl.SubConfig([]int{rep % (n - 1)}, nil) // one node that is not the last in id order
+	if err != nil {
+		R.Inconc("sub-configuration: " + err.Error())
+		return
+	}
+	var derived []string
+	for k, opt := range []gorums.NodeListOption{cl.Cfg.Except(sub), cl.Cfg.WithoutNodes(cl.IDs[(rep+1)%n]), sub.And(cl.Cfg), cl.Cfg.And(sub)} {
+		if _, err := cl.Mgr.NewConfiguration(opt, cl.QS); err == nil {
+			derived = append(derived, []string{"Except", "WithoutNodes", "sub.And", "And"}[k])
+		}
+	}
+	det := map[string]any{"n": n, "derived": derived}
+	const calls = 30
+	want := map[uint64]uint64{}
+	for k := 0; k < calls; k++ {
+		tok := h.NewToken()
+		want[tok] = uint64(k + 1)
+		req := &puppet.Req{Call: tok, Seq: uint64(k + 1), Kind: 3}
+		cl.QS.Register(&h.CallMon{Token: tok, Orig: req, Decide: func(inv *h.Inv) (bool, int) { return len(inv.Keys) >= n, len(inv.Keys) }})
+		ctx, cancel := context.WithTimeout(context.Background(), 3*time.Second)
+		op := &Op{Method: []string{"Multi", "QC", "Async", "Multi", "Corr"}[k%5], NoWait: k%2 == 0}
+		t := h.Go("c03:derived", func() {
+			if w := Invoke(cl, cl.Cfg, op, ctx, req); w != nil {
+				w()
+			}
+		})
+		h.Await(t, e.W)
+		defer cancel() // (no context is cancelled while messages may still be on their way)
+	}
+	time.Sleep(20 * time.Millisecond)
+	for i, s := range cl.Srvs {
+		seen := map[uint64]int{}
+		last := uint64(0)
+		for _, en := range s.Log() {
+			if _, ok := want[en.Call]; !ok {
+				continue
+			}
+			seen[en.Call]++
+			if seen[en.Call] > 1 {
+				R.Violate("handler-started-twice", fmt.Sprintf("server %d started the handler of issue #%d %d times on a configuration from which others had been derived (%v)", i, en.Seq, seen[en.Call], derived), det)
+				return
+			}
+			if en.Seq < last {
+				R.Violate("fifo-order", fmt.Sprintf("server %d started the handler of issue #%d after the handler of issue #%d", i, en.Seq, last), det)
+				return
+			}
+			last = en.Seq
+		}
+		if len(seen) < calls {
+			R.Violate("lost-message", fmt.Sprintf("server %d handled %d of %d calls made on a configuration from which others had been derived (%v); no context was cancelled, no connection failed", i, len(seen), calls, derived), det)
+			return
+		}
+	}
+	R.Eval(fmt.Sprintf("derived-configurations|n=%d|%d", n, rep), true)
+	R.Count("derived.original_configurations_used_after_deriving_others", 1)
 }
 
 // runFifoAliased: a configuration created from an address list in which servers also appear under other spellings of their
@@ -280,7 +349,7 @@ func runFifoAliased(e *Env, rep int) {
 			}
 		})
 		h.Await(t, e.W)
-		cancel()
+		defer cancel() // (no context is cancelled while messages may still be on their way)
 	}
 	time.Sleep(20 * time.Millisecond)
 	for i, s := range cl.Srvs {
